@@ -36,7 +36,7 @@ var (
 
 func ecKey(r *rand.Rand) *ecdsa.PrivateKey {
 	keyOnce.Do(func() {
-		for _, c := range []elliptic.Curve{elliptic.P256(), elliptic.P256(), elliptic.P256(), elliptic.P384(), elliptic.P521()} {
+		for _, c := range []elliptic.Curve{elliptic.P256(), elliptic.P256(), elliptic.P256(), elliptic.P256(), elliptic.P384()} {
 			k, err := ecdsa.GenerateKey(c, crand.Reader)
 			if err != nil {
 				panic(err)
@@ -402,8 +402,11 @@ func genOp(r *rand.Rand, id string, spec *opSpec, phase, force string) *opCase {
 	}
 	if oc.holdMode != "" {
 		j := 0
-		if len(p.Post) > 0 {
+		if len(p.Post) > 0 && force == "" {
 			j = r.IntN(len(p.Post) + 1)
+		}
+		if force != "" {
+			p.Head = nil
 		}
 		var then action
 		if j < len(p.Post) {
@@ -421,17 +424,28 @@ func genOp(r *rand.Rand, id string, spec *opSpec, phase, force string) *opCase {
 		oc.preCancel = true
 		oc.holdMode = ""
 	}
-	var sg []string
-	seen := map[string]bool{}
+	has := map[string]bool{}
 	for _, a := range p.Post {
-		k := a.sig()
-		if !seen[k] {
-			seen[k] = true
-			sg = append(sg, k)
+		if a.Kind == "hold" && a.Then != nil {
+			a = *a.Then
+		}
+		switch {
+		case a.Kind == "err" && isBadNonceProblem(a.Problem):
+			has["badNonce"] = true
+		case a.Kind == "err" && a.Status == 429:
+			has["429"] = true
+		case a.Kind == "err" && a.Status >= 500:
+			has["5xx"] = true
+		case a.Kind == "reset":
+			has["reset"] = true
 		}
 	}
+	var sg []string
+	for k := range has {
+		sg = append(sg, k)
+	}
 	sort.Strings(sg)
-	oc.sig = fmt.Sprintf("%s|%s|f%d|stop=%v|hold=%s|pre=%v", spec.kind, strings.Join(sg, ","), min(nFail, 3), pol.K < nFail, oc.holdMode, oc.preCancel)
+	oc.sig = fmt.Sprintf("%s|%s|stop=%v|hold=%s|pre=%v|phase=%s", spec.kind, strings.Join(sg, ","), pol.K < nFail, oc.holdMode, oc.preCancel, phase)
 	return oc
 }
 
@@ -835,6 +849,38 @@ func runSession(m *mon.M, r *rand.Rand, cfg sessionCfg, s *fakeCA, hc *http.Clie
 	j.judgeSession(phaseB)
 }
 
+// one loopback server per process; the handler is swapped per session
+type swapHandler struct {
+	mu sync.Mutex
+	h  http.Handler
+}
+
+func (w *swapHandler) set(h http.Handler) { w.mu.Lock(); w.h = h; w.mu.Unlock() }
+func (w *swapHandler) ServeHTTP(rw http.ResponseWriter, r *http.Request) {
+	w.mu.Lock()
+	h := w.h
+	w.mu.Unlock()
+	if h == nil {
+		http.Error(rw, "no session", 500)
+		return
+	}
+	h.ServeHTTP(rw, r)
+}
+
+var (
+	srvOnce sync.Once
+	theSrv  *httptest.Server
+	theSwap *swapHandler
+)
+
+func sharedServer() (*httptest.Server, *swapHandler) {
+	srvOnce.Do(func() {
+		theSwap = &swapHandler{}
+		theSrv = httptest.NewServer(theSwap)
+	})
+	return theSrv, theSwap
+}
+
 // ---- the check -------------------------------------------------------------------------------
 
 func TestC50(t *testing.T) {
@@ -846,7 +892,7 @@ func TestC50(t *testing.T) {
 	m.Assume("virtual-time stream: testing/synctest fake clock; verdicts use only that clock")
 	ecKey(rand.New(rand.NewPCG(1, 2)))
 
-	total := m.N(2000, 60000)
+	total := m.N(1200, 60000)
 	m.Cases("sessions", total, func(i int64, r *rand.Rand) {
 		cfg := sessionCfg{NB: 2 + r.IntN(6), idPrefix: fmt.Sprintf("c%d", i)}
 		switch i % 4 {
@@ -865,15 +911,14 @@ func TestC50(t *testing.T) {
 		}
 		cfg.KidMode = mon.Pick(r, []string{"register", "register", "preset", "preset", "none"})
 		cfg.RSA = r.IntN(40) == 0
-		srv := httptest.NewUnstartedServer(nil)
-		s := newFakeCA("http://" + srv.Listener.Addr().String())
-		srv.Config.Handler = s
-		srv.Start()
+		srv, swap := sharedServer()
+		s := newFakeCA(srv.URL)
+		swap.set(s)
 		tr := &http.Transport{MaxIdleConnsPerHost: 16}
 		hc := &http.Client{Transport: &tagTransport{base: tr}}
 		runSession(m, r, cfg, s, hc)
 		tr.CloseIdleConnections()
-		srv.Close()
+		swap.set(nil)
 		if i < 3 {
 			s.mu.Lock()
 			m.Sample(map[string]any{"session": i, "cfg": fmt.Sprintf("%+v", cfg), "first_events": tailEvents(s.all[:min(len(s.all), 25)], 25)})
